@@ -623,6 +623,9 @@ def sem0 : Sem CV CE where
   mkSlice := .slice
   iter := iterFor
   getIter := fun v => match v with
+    -- (a generator object that raises while `*g` unpacks it does so before the following elements are evaluated;
+    --  the model expands after evaluating them: outside the model)
+    | .gen (.error _) => unm
     | .tuple _ | .list _ | .str _ | .dict _ _ | .range _ _ | .gen _ | .undef _ => .ok v
     | .bad | .bound _ _ => unm
     | _ => .error .typeError
